@@ -280,13 +280,23 @@ func (ps *PubSub) subscribe(conn redcon.Conn, pattern bool, channel string) {
 	defer sconn.mu.Unlock()
 
 	// add an entry to the pubsub btree
-	entry := &pubSubEntry{
-		pattern: pattern,
-		channel: channel,
-		sconn:   sconn,
+	// Subscribing twice to the same channel or pattern is still one subscription.
+	var entry *pubSubEntry
+	for ient := range sconn.entries {
+		if ient.pattern == pattern && ient.channel == channel {
+			entry = ient
+			break
+		}
 	}
-	ps.chans.Set(entry)
-	sconn.entries[entry] = true
+	if entry == nil {
+		entry = &pubSubEntry{
+			pattern: pattern,
+			channel: channel,
+			sconn:   sconn,
+		}
+		ps.chans.Set(entry)
+		sconn.entries[entry] = true
+	}
 
 	// send a message to the client
 	sconn.dconn.WriteArray(3)
@@ -379,27 +389,11 @@ func (ps *PubSub) unsubscribe(conn redcon.Conn, pattern, all bool, channel strin
 }
 
 func (ps *PubSub) Channels() []string {
-	ps.mu.RLock()
-	defer ps.mu.RUnlock()
-
-	if !ps.initd {
-		return nil
-	}
-
-	var channels []string
-	for _, sconn := range ps.conns {
-		sconn.mu.Lock()
-		for ient := range sconn.entries {
-			if !ient.pattern {
-				channels = append(channels, ient.channel)
-			}
-		}
-		sconn.mu.Unlock()
-	}
-
-	return channels
+	return ps.ChannelsWithPatterns("")
 }
 
+// ChannelsWithPatterns returns the distinct channels with at least one subscriber. Pattern
+// subscriptions are not channels. An empty pattern matches every channel.
 func (ps *PubSub) ChannelsWithPatterns(pattern string) []string {
 	ps.mu.RLock()
 	defer ps.mu.RUnlock()
@@ -409,12 +403,21 @@ func (ps *PubSub) ChannelsWithPatterns(pattern string) []string {
 	}
 
 	var channels []string
+	seen := make(map[string]struct{})
 	for _, sconn := range ps.conns {
 		sconn.mu.Lock()
 		for ient := range sconn.entries {
-			if match.Match(ient.channel, pattern) {
-				channels = append(channels, ient.channel)
+			if ient.pattern {
+				continue
 			}
+			if pattern != "" && !match.Match(ient.channel, pattern) {
+				continue
+			}
+			if _, ok := seen[ient.channel]; ok {
+				continue
+			}
+			seen[ient.channel] = struct{}{}
+			channels = append(channels, ient.channel)
 		}
 		sconn.mu.Unlock()
 	}
@@ -455,9 +458,11 @@ func (ps *PubSub) Numsub(channel string) int {
 	var result int
 	for _, sconn := range ps.conns {
 		sconn.mu.Lock()
+		// Count the connection once, and only for a subscription to the channel itself.
 		for ient := range sconn.entries {
-			if ient.channel == channel {
+			if !ient.pattern && ient.channel == channel {
 				result++
+				break
 			}
 		}
 		sconn.mu.Unlock()
